@@ -323,6 +323,13 @@ pub fn check(prop: &str, tier_name: &str) -> i32 {
             exhaustive_kinds = faults::SINGLE_KINDS.iter().map(|s| s.to_string()).collect();
         }
         items.extend(batches(prop, base, t.selftest, t.selftest + t.c16_worlds, 100, false));
+        // generated programs, plain and with one fault
+        let npg: u64 = if t.name == "quick" { 6_000 } else { 200_000 };
+        let mut a = 0;
+        while a < npg {
+            items.push(Item::C16Progen { base, from: a, to: (a + 200).min(npg) });
+            a += 200;
+        }
     }
     // interleave big and small items so that the tail of the run stays parallel
     let n_items = items.len();
@@ -886,6 +893,7 @@ fn world_of_tag(prop: &str, base: u64, tag: &str, corpus: &[Program]) -> Option<
         ("C16", "c16") => Some(gen::c16_world(mix(base ^ 0xC16, p.get(1)?.parse().ok()?), corpus)),
         ("C16", "c16e") => Some(gen::c16_enum_world(corpus, p.get(1)?.parse().ok()?, p.get(2)?, p.get(3)?.parse().ok()?)),
         (_, "dlv") => Some(gen::delivery_world(prop, corpus, p.get(1)?.parse().ok()?, p.get(2)?.parse().ok()?)),
+        ("C16", "c16p") => Some(gen::c16_progen_world(base, p.get(1)?.parse().ok()?)),
         _ => None,
     }
 }
